@@ -628,12 +628,12 @@ func (m *c35Mon) doRefresh(s *c35Sess, all *[]*c35Sess, nextID *int, ops []strin
 
 func (m *c35Mon) monitorLifecycle() {
 	users := []struct{ u, r string }{{"root", "admin"}, {"alice", "user"}, {"Bob Smith", "user"}, {"guest-1", "guest"}, {`q"uote`, "user"}, {"ünï", "guest"}}
-	seqs := m.pick(60, 600)
+	seqs := m.pick(60, 300)
 	nextID := 0
 	for q := 0; q < seqs; q++ {
 		var all []*c35Sess
 		var ops []string
-		nops := m.pick(16, 30)
+		nops := m.pick(16, 24)
 		pickSess := func(pred func(*c35Sess) bool) *c35Sess {
 			var c []*c35Sess
 			for _, s := range all {
